@@ -10,8 +10,8 @@ CONSTANTS
  Args <- ArgsBad
  ByzPosts <- ByzNone
  MaxByz = 0
- Faults <- FApi
- MaxFault = 1
+ Faults <- FNone
+ MaxFault = 0
  Tampers <- TNone
  MaxTamper = 0
  Plants <- PSome
